@@ -135,3 +135,35 @@ func genExtMixed(f string, asExt bool) GenFn {
 		}
 	}
 }
+
+// genUnfExtInit: extended events (which ANNOUNCE their length) into targets that already hold
+// something — fewer, as many and more entries than announced: the announcement is a hint for
+// pre-sizing, never a reason to drop what the target holds (maps are merged into, slices
+// overwritten from the start)
+func genUnfExtInit(r *Rand, tier string, emit func(string)) {
+	mapInits := []string{"{}", "{6b=<bool>true}", "{6b=<bool>true,61=<int>9}", "{61=<int>9,62=<int>8,63=<int>7}"}
+	for _, x := range []string{"Ostr:2:61=76/62=77", "Ou16:2:61=1/62=2", "Oi8:1:7a=-1", "Of64:2:61=3ff8000000000000/7a=4000000000000000", "Obool:3:61=T/62=F/63=T",
+		"Oi:0:", "{2:0,K:61,i:1,K:62,i:2,}", "{-1:0,K:61,i:1,K:62,i:2,}", "{1:0,K:7a,S:7a,}"} {
+		for _, in := range mapInits {
+			emit(fmt.Sprintf("unf map:any %s - %s", in, x))
+			emit(fmt.Sprintf("unf any <map:any>%s - %s", in, x))
+			emit(fmt.Sprintf("unf @In2 (0,nil,%s) - {-1:0,K:72,%s,}", in, x))
+		}
+	}
+	arrInits := []string{"[]", "[<int>1]", "[<int>1,<int>2,<int>3,<int>4]"}
+	for _, x := range []string{"Ai:3:1/2/3", "Au8:2:200/201", "Astr:1:61", "Abool:0:", "Af32:2:3fc00000/40000000", "[3:0,i:1,N,T,]", "[-1:0,i:1,N,]"} {
+		for _, in := range arrInits {
+			emit(fmt.Sprintf("unf []any %s - %s", in, x))
+			emit(fmt.Sprintf("unf any <[]any>%s - %s", in, x))
+		}
+	}
+	for _, c := range [][3]string{{"map:int", "{61=9}", "Oi:2:62=1/63=2"}, {"map:string", "{61=s:78}", "Ostr:2:62=76/63=77"}, {"map:uint16", "{61=9}", "Ou16:2:62=1/63=2"},
+		{"[]int", "[9,8,7,6]", "Ai:2:1/2"}, {"[]string", "[s:78]", "Astr:3:61/62/63"}, {"[]uint8", "[9]", "Au8:2:1/2"}} {
+		emit(fmt.Sprintf("unf %s %s - %s", c[0], c[1], c[2]))
+	}
+}
+
+func init() {
+	RegisterGen("C10", genUnfExtInit)
+	RegisterGen("C13", genUnfExtInit)
+}
